@@ -62,6 +62,8 @@ LAYOUTS = [
     ("Layout: LayoutItem+;\nLayoutItem: WS | Comment;", "WS: /\\s+/;\nComment: /\\/\\/.*/;", [" ", "\n", " // c\n", "\t//x\n "]),
     ("Layout: LayoutItem*;\nLayoutItem: WS | Comment;", "WS: /\\s+/;\nComment: /#[^\\n]*/;", [" ", "\n", " # c\n", "#\n"]),
     ("Layout: LayoutItem+ | EMPTY;\nLayoutItem: WS | Comment;", "WS: /\\s+/;\nComment: /\\/\\/.*/;", [" ", "\n", " // c\n", "\t//x\n "]),
+    # a Layout rule that does NOT repeat: several layout items before a token are skipped in several rounds
+    ("Layout: WS | Comment;", "WS: /\\s+/;\nComment: /\\/\\/.*\\n?/;", [" ", "\n", " // c\n", "\t//x\n ", "//a\n//b\n  "]),
     ("Layout: LayoutItem+;\nLayoutItem: WS | Comment;\nComment: CO Inner CC;\nInner: Inner Chunk | Inner Comment | EMPTY;",
      "WS: /\\s+/;\nCO: '/*';\nCC: '*/';\nChunk: /[^*\\/]+/;", [" ", "\n", " /* c */ ", "/* a /* n */ b */"]),
 ]
@@ -113,6 +115,8 @@ def corpus_bg():
     mk([("S", [["S", "a"], []])], [("R", r"[α-ω]+", ["αβ", "ω"], None)], shape="greek")
     mk([("S", [["A", "S"], ["A"]]), ("A", [["a"], ["b"], ["c"]])],
        [("R", r"ab", ["ab"], 15), ("R", r"zz", ["zz"], 15), ("R", r"abc", ["abc"], None)], shape="prio-groups")
+    # a Layout rule that does not repeat: two layout items before a token are skipped in two rounds
+    mk([("S", [["S", "a"], ["a"]])], [("S", "x", ["x"], None)], layout=LAYOUTS[3], shape="single-item-layout")
     # a production ending in a nullable symbol, inside a list, followed by layout: right-nulled reductions in GLR and
     # the place of the empty node relative to the layout (LR and GLR must agree, C07; node span = hull of children, C13)
     for k, lay in enumerate([None] + LAYOUTS):
